@@ -474,6 +474,8 @@ class Lane:
                 self._estimate_cache[cache_key] = (st.estimates, st.est_info)
         st.crit_spec = op.get("crit") or plan["crit_default"]
         st.pf_spec = op.get("pf") or plan["pf_default"]
+        if self.token_map and st.crit_spec.get("target_uuids"):
+            st.crit_spec = dict(st.crit_spec, target_uuids=[self.token_map.get(u, u) for u in st.crit_spec["target_uuids"]])
         st.crit = self._config_object("crit", st.crit_spec, make_crit)
         st.pf = self._config_object("pf", st.pf_spec, make_pf)
         st.n_results_before = len(self.manager.frame_results)
